@@ -1031,9 +1031,17 @@ def c02_minidx(ctx):
 def norm_bool(t):
     """boolean normal form of is_some/is_none/Not"""
     neg = False
-    while t is not None and t[0] == 'un' and t[1] == 'Not':
-        neg = not neg
-        t = t[2]
+    while t is not None:
+        if t[0] == 'un' and t[1] == 'Not':
+            neg = not neg
+            t = t[2]
+        elif t[0] == 'bin' and t[1] in ('Eq', 'Ne') and t[3] in (('const', 0), ('const', 1)) and t[2] is not None and t[2][0] in ('call', 'un'):
+            # `b == false`, `b != true` ..: a boolean compared with a constant
+            if (t[1] == 'Eq') != (t[3][1] == 1):
+                neg = not neg
+            t = t[2]
+        else:
+            break
     if t is not None and t[0] == 'call' and term_callee(t) in ('std::option::Option::is_some', 'std::option::Option::is_none'):
         is_some = term_callee(t).endswith('is_some') != neg
         return ('is_some' if is_some else 'is_none', t[2][0])
